@@ -726,3 +726,53 @@ func panicOnlyIf(a *Analysis, fn *ssa.Function, about *Term, axioms [][]int32, l
 	}
 	return n, ok
 }
+
+// returnsOnlyIf: like panicOnlyIf for a boolean answer: every feasible edge on
+// which the root function answers the constant val, decided by a test that
+// mentions all the given terms, carries a state entailing one of lits.
+func returnsOnlyIf(a *Analysis, fn *ssa.Function, val bool, axioms [][]int32, lits []int32, about ...*Term) (int, bool) {
+	tb := a.tb
+	n, ok := 0, true
+	isVal := func(v ssa.Value) bool {
+		c, isC := v.(*ssa.Const)
+		return isC && c.Value != nil && c.Value.Kind() == constant.Bool && constant.BoolVal(c.Value) == val
+	}
+	check := func(p, b *ssa.BasicBlock) {
+		ifi, isIf := p.Instrs[len(p.Instrs)-1].(*ssa.If)
+		if !isIf {
+			return
+		}
+		ct := tb.Term(tb.root, ifi.Cond)
+		for _, ab := range about {
+			if !ct.contains(func(x *Term) bool { return x == ab }) {
+				return
+			}
+		}
+		st := a.edgeState(tb.root, p, b)
+		if st == nil {
+			return
+		}
+		n++
+		if !a.entails(st, axioms, lits...) {
+			ok = false
+		}
+	}
+	for _, b := range fn.Blocks {
+		ret, isRet := b.Instrs[len(b.Instrs)-1].(*ssa.Return)
+		if !isRet || len(ret.Results) != 1 {
+			continue
+		}
+		if isVal(ret.Results[0]) {
+			for _, p := range b.Preds {
+				check(p, b)
+			}
+		} else if phi, isPhi := ret.Results[0].(*ssa.Phi); isPhi && phi.Block() == b {
+			for i, e := range phi.Edges {
+				if isVal(e) {
+					check(b.Preds[i], b)
+				}
+			}
+		}
+	}
+	return n, ok
+}
